@@ -1339,6 +1339,12 @@ fn replay_line(out: &mut Out, rt: &tokio::runtime::Runtime, dir: &Path, line: &s
 		deep_probe(out, dir, t[2].parse().unwrap(), t[3] == "open");
 		return;
 	}
+	if t.len() == 4 && t[0] == "C18" && t[1] == "get" {
+		if let Ok(text) = String::from_utf8(unhex(t[3])) {
+			crate::c18x::emit_get(out, t[2], &text, None);
+		}
+		return;
+	}
 	if t.len() == 4 && t[0] == "C18" && t[1] == "path" {
 		if let (Ok(d), Ok(f)) = (String::from_utf8(unhex(t[2])), String::from_utf8(unhex(t[3]))) {
 			crate::c18x::emit_path(out, rt, &d, &f);
